@@ -87,8 +87,32 @@ var c16Modules = []string{"distribution", "bonded_tokens_pool", "erc20", "evm", 
 type c16Cell struct {
 	T     int
 	Chain string
+	Shape string // payload shape: valid, zero (only the authority set), or a type specific degenerate form
 	Class string
 	Path  int
+}
+
+// c16Shapes: several payload shapes per type. "valid" is the hand-written payload (the
+// reflection filler for unknown types), "zero" the zero value with only the authority set
+// (empty params / empty lists), the others are degenerate-but-valid forms that aim at
+// objects which exist in the state (delete forms, no-op forms).
+func c16Shapes(url string) []string {
+	out := []string{"valid", "zero"}
+	switch url {
+	case "/fx.gov.v1.MsgUpdateCustomParams":
+		out = append(out, "delete-existing", "delete-missing")
+	case "/fx.gov.v1.MsgUpdateStore":
+		out = append(out, "noop", "delete-form", "repeated-key")
+	case "/fx.erc20.v1.MsgUpdateDenomAlias":
+		out = append(out, "existing-alias")
+	case "/cosmos.distribution.v1beta1.MsgCommunityPoolSpend":
+		out = append(out, "zero-amount")
+	case "/cosmos.bank.v1beta1.MsgSetSendEnabled":
+		out = append(out, "use-default")
+	case "/fx.gravity.crosschain.v1.MsgUpdateChainOracles":
+		out = append(out, "empty-list")
+	}
+	return out
 }
 
 type c16State struct {
@@ -116,9 +140,11 @@ func newC16(r *Run) *c16State {
 			chains = AllChains
 		}
 		for _, ch := range chains {
-			for _, cl := range c16Classes {
-				for p := 1; p <= 4; p++ {
-					c.cells = append(c.cells, c16Cell{T: ti, Chain: ch, Class: cl, Path: p})
+			for _, sh := range c16Shapes(t.URL) {
+				for _, cl := range c16Classes {
+					for p := 1; p <= 4; p++ {
+						c.cells = append(c.cells, c16Cell{T: ti, Chain: ch, Shape: sh, Class: cl, Path: p})
+					}
 				}
 			}
 		}
@@ -165,7 +191,7 @@ func c16Authority(w *World, class string, who int, variant int) string {
 
 func (c *c16State) item(cell c16Cell, marker int) string {
 	t := c.types[cell.T]
-	kv := []interface{}{"marker", marker, "window", 5000 + marker, "timeout", 500_000 + marker}
+	kv := []interface{}{"marker", marker, "window", 5000 + marker, "timeout", 500_000 + marker, "shape", cell.Shape}
 	if cell.Chain != "" {
 		kv = append(kv, "chain", cell.Chain)
 	}
@@ -211,7 +237,7 @@ func (c *c16State) gen(r *Run, kind string) (Step, bool) {
 	case "cas":
 		st.Uniq++
 		u := st.Uniq
-		variant := []string{"fresh", "stale", "partial", "race-ab", "race-ba", "fresh-multi", "absent"}[rng.IntN(7)]
+		variant := []string{"fresh", "stale", "partial", "race-ab", "race-ba", "fresh-multi", "absent", "dup-stale", "dup-chain", "dup-stale", "dup-chain"}[rng.IntN(11)]
 		return Step{Kind: "cas", A: A("op", variant, "k1", fmt.Sprintf("f2%02x", rng.IntN(4)), "k2", fmt.Sprintf("f3%02x", rng.IntN(4)), "v", fmt.Sprintf("%06x", u))}, true
 	case "positive":
 		st.Uniq++
@@ -434,6 +460,8 @@ func cloneTxs(txs []Tx) []Tx {
 func (c *c16State) probeCell(r *Run, url string, t *Tx, handwritten bool) {
 	r.Nontrivial = true
 	r.Probe("msg:" + url)
+	_, ia := gparseItem(t.A.Str("item"))
+	r.Probe("shape:" + ia.Str("shape"))
 	p := fmt.Sprintf("cell:%s/p%d", t.A.Str("class"), t.A.Int("path"))
 	if t.A.Has("granter") {
 		p += "+grant"
@@ -622,6 +650,12 @@ func (c *c16State) casOn(r *Run, w *World, s *Step, o *Outcome) {
 	case "partial":
 		lists = [][]sdk.Msg{mk(k1+"|"+k2, cur1+"|"+stale(cur2), v+"|"+v+"01")}
 		wantStatus, exp = []string{"FAILED"}, []expect{{k1, cur1}, {k2, cur2}}
+	case "dup-stale": // one message, the same key twice, the second entry still states the pre-message value
+		lists = [][]sdk.Msg{mk(k1+"|"+k1, cur1+"|"+cur1, v+"02|"+v+"03")}
+		wantStatus, exp = []string{"FAILED"}, []expect{{k1, cur1}}
+	case "dup-chain": // one message, the same key twice, correctly chained
+		lists = [][]sdk.Msg{mk(k1+"|"+k1, cur1+"|"+v+"02", v+"02|"+v+"03")}
+		wantStatus, exp = []string{"PASSED"}, []expect{{k1, v + "03"}}
 	case "race-ab", "race-ba":
 		a, b := mk(k1, cur1, v+"0a"), mk(k1, cur1, v+"0b")
 		first := v + "0a"
